@@ -2082,7 +2082,7 @@ class MPO:
         trace = mps.scalar_product(identity_mps)
 
         # Checks if trace is not a singular values for partial trace
-        return not np.round(np.abs(trace), 1) / 2**self.length < fidelity
+        return not np.abs(trace) / 2**self.length < fidelity
 
     @classmethod
     def _parse_pauli_string(cls, spec: str) -> dict[int, str]:
